@@ -729,37 +729,36 @@ def inline_program(bodies_by_tag):
             # the closures / the future of an inlined helper now belong to the function that builds them - like a
             # closure or an async block written in place - provided all its callers are one function
             for cid in inlined - still:
-                hosts = {bodies[r["host"]]["owner"] for r in report if r["crate"] == tag and r["callee"] == cid and r["host"] in bodies}
-                hosts = {h if h not in inlined else None for h in hosts}
-                if len(hosts) == 1 and None not in hosts:
-                    new_owner = list(hosts)[0]
-                    for bid, j in bodies.items():
-                        if j["owner"] == cid and bid != cid:
-                            j["owner"] = new_owner
-                            j["reowned_from"] = cid
-                elif None not in hosts and len(hosts) > 1:
-                    # several functions call the helper: each gets its own copy of the helper's closures / future
-                    import json as _json
-                    inner = [bid for bid, j in bodies.items() if j["owner"] == cid and bid != cid]
-                    if not inner:
-                        continue
-                    for h in sorted(hosts):
-                        tagname = cid + "@" + h.rsplit("::", 1)[-1]
-                        for bid in inner:
-                            txt = _json.dumps(bodies[bid]).replace(cid + "::{", tagname + "::{")
-                            nj = _json.loads(txt)
-                            nj["owner"] = h
-                            nj["reowned_from"] = cid
-                            if nj.get("parent") == cid:
-                                nj["parent"] = h
-                            bodies[nj["id"]] = nj
-                        for hb, hj in list(bodies.items()):
-                            if hj["owner"] == h and not hj.get("reowned_from") and (cid + "::{") in _json.dumps(hj["blocks"]):
-                                nh = _json.loads(_json.dumps(hj).replace(cid + "::{", tagname + "::{"))
-                                hj.clear()
-                                hj.update(nh)
+                host_ids = sorted({r["host"] for r in report if r["crate"] == tag and r["callee"] == cid and r["host"] in bodies})
+                if any(bodies[h]["owner"] in inlined for h in host_ids) or not host_ids:
+                    continue
+                inner = [bid for bid, j in bodies.items() if j["owner"] == cid and bid != cid]
+                if not inner:
+                    continue
+                if len(host_ids) == 1:
+                    new_owner = bodies[host_ids[0]]["owner"]
                     for bid in inner:
-                        bodies[bid]["inlined_away"] = True
+                        bodies[bid]["owner"] = new_owner
+                        bodies[bid]["reowned_from"] = cid
+                    continue
+                # several call sites: each calling body gets its own copy of the helper's closures / future, so that
+                # what is known about one call (its message label, its peer) is not merged with the others
+                import json as _json
+                for n_, hb in enumerate(host_ids):
+                    hj = bodies[hb]
+                    tagname = "%s@%d" % (cid, n_)
+                    for bid in inner:
+                        nj = _json.loads(_json.dumps(bodies[bid]).replace(cid + "::{", tagname + "::{"))
+                        nj["owner"] = hj["owner"]
+                        nj["reowned_from"] = cid
+                        if nj.get("parent") == cid:
+                            nj["parent"] = hb
+                        bodies[nj["id"]] = nj
+                    nh = _json.loads(_json.dumps(hj).replace(cid + "::{", tagname + "::{"))
+                    hj.clear()
+                    hj.update(nh)
+                for bid in inner:
+                    bodies[bid]["inlined_away"] = True
     return report
 
 
